@@ -126,17 +126,103 @@ func Inventory(repo string, overlay map[string][]byte) (map[string]string, error
 			return nil // the main load reports syntax errors
 		}
 		rel, _ := filepath.Rel(repo, filepath.Dir(path))
+		slicesName := ""
+		for _, is := range f.Imports {
+			if is.Path.Value == `"slices"` {
+				slicesName = "slices"
+				if is.Name != nil {
+					slicesName = is.Name.Name
+				}
+			}
+		}
 		for _, d := range f.Decls {
 			if fd, ok := d.(*ast.FuncDecl); ok {
 				if fd.Name.Name == "init" || fd.Name.Name == "_" {
 					continue
 				}
-				out[Key(rel, recvName(fd), fd.Name.Name)] = sigText(src, fset, fd)
+				val := sigText(src, fset, fd)
+				if slicesName != "" && fd.Body != nil {
+					var uses []string
+					ast.Inspect(fd.Body, func(n ast.Node) bool {
+						if c, ok := n.(*ast.CallExpr); ok {
+							if kind := modelKind(c, slicesName); kind != "" {
+								uses = append(uses, normText(string(src[fset.Position(c.Pos()).Offset:fset.Position(c.End()).Offset])))
+							}
+						}
+						return true
+					})
+					sort.Strings(uses)
+					if len(uses) > 0 {
+						val += "\t" + strings.Join(uses, "\x1f")
+					}
+				}
+				out[Key(rel, recvName(fd), fd.Name.Name)] = val
 			}
 		}
 		return nil
 	})
 	return out, err
+}
+
+// modelled standard-library helpers: a call of one of these that the reference tree did not have is rewritten to
+// an explicit loop (through an injected helper that is then inlined), so that a hand-written loop replaced by the
+// library function keeps the shape the rules know.
+var modelled = map[string]bool{"ContainsFunc": true, "IndexFunc": true, "Contains": true, "Index": true}
+
+func modelKind(c *ast.CallExpr, slicesName string) string {
+	sel, ok := c.Fun.(*ast.SelectorExpr)
+	if !ok {
+		return ""
+	}
+	x, ok := sel.X.(*ast.Ident)
+	if !ok || x.Name != slicesName || !modelled[sel.Sel.Name] {
+		return ""
+	}
+	return sel.Sel.Name
+}
+
+func normText(t string) string { return strings.Join(strings.Fields(t), " ") }
+
+func splitVal(v string) (sig string, uses []string) {
+	if i := strings.Index(v, "\t"); i >= 0 {
+		sig = v[:i]
+		if v[i+1:] != "" {
+			uses = strings.Split(v[i+1:], "\x1f")
+		}
+		return
+	}
+	return v, nil
+}
+
+// newModelUses: per function key, the modelled calls (normalised text) that the baseline does not have.
+func newModelUses(inv, baseline map[string]string) map[string]map[string]int {
+	out := map[string]map[string]int{}
+	for k, v := range inv {
+		_, cur := splitVal(v)
+		if len(cur) == 0 {
+			continue
+		}
+		var base []string
+		if bv, ok := baseline[k]; ok {
+			_, base = splitVal(bv)
+		}
+		cnt := map[string]int{}
+		for _, u := range cur {
+			cnt[u]++
+		}
+		for _, u := range base {
+			cnt[u]--
+		}
+		for u, n := range cnt {
+			if n > 0 {
+				if out[k] == nil {
+					out[k] = map[string]int{}
+				}
+				out[k][u] = n
+			}
+		}
+	}
+	return out
 }
 
 type edit struct {
@@ -177,7 +263,9 @@ func Run(repo string, env []string, base map[string][]byte, baseline map[string]
 				var cands []string
 				for nk := range newKeys {
 					np := strings.SplitN(nk, "|", 3)
-					if np[0] == parts[0] && np[1] == parts[1] && inv[nk] == bsig {
+					nsig, _ := splitVal(inv[nk])
+					bs, _ := splitVal(bsig)
+					if np[0] == parts[0] && np[1] == parts[1] && nsig == bs {
 						cands = append(cands, nk)
 					}
 				}
@@ -192,10 +280,11 @@ func Run(repo string, env []string, base map[string][]byte, baseline map[string]
 		for k := range rep.Kept {
 			delete(newKeys, k)
 		}
-		if len(newKeys) == 0 {
+		models := newModelUses(inv, baseline)
+		if len(newKeys) == 0 && len(models) == 0 {
 			return cur, rep
 		}
-		next, did, kept, err := oneRound(repo, env, cur, newKeys)
+		next, did, kept, err := oneRound(repo, env, cur, newKeys, models)
 		for k, why := range kept {
 			rep.Kept[k] = why
 		}
@@ -273,7 +362,7 @@ func funcID(fn *types.Func) string {
 	return fn.Pkg().Path() + "::" + fn.FullName()
 }
 
-func oneRound(repo string, env []string, overlay map[string][]byte, newKeys map[string]bool) (map[string][]byte, []string, map[string]string, error) {
+func oneRound(repo string, env []string, overlay map[string][]byte, newKeys map[string]bool, models map[string]map[string]int) (map[string][]byte, []string, map[string]string, error) {
 	kept := map[string]string{}
 	pkgs, err := loadTyped(repo, env, overlay)
 	if err != nil {
@@ -301,6 +390,98 @@ func oneRound(repo string, env []string, overlay map[string][]byte, newKeys map[
 					srcOf[f] = b
 				}
 			}
+		}
+	}
+	// modelled library calls that the reference tree did not have → explicit loops (as injected helpers)
+	if len(models) > 0 {
+		modelEdits := map[*ast.File][]edit{}
+		for _, pk := range pkgs {
+			if len(pk.Errors) > 0 || pk.TypesInfo == nil {
+				continue
+			}
+			for _, f := range pk.Syntax {
+				name := fileOf[f]
+				if name == "" || !strings.HasPrefix(name, repo) || strings.HasSuffix(name, "_test.go") || srcOf[f] == nil {
+					continue
+				}
+				rel, _ := filepath.Rel(repo, filepath.Dir(name))
+				qual, _ := qualifierFor(pk, f, map[string]string{})
+				var tail strings.Builder
+				for _, d := range f.Decls {
+					fd, ok := d.(*ast.FuncDecl)
+					if !ok || fd.Body == nil {
+						continue
+					}
+					want := models[Key(rel, recvName(fd), fd.Name.Name)]
+					if len(want) == 0 {
+						continue
+					}
+					ast.Inspect(fd.Body, func(n ast.Node) bool {
+						c, ok := n.(*ast.CallExpr)
+						if !ok {
+							return true
+						}
+						sel, ok := c.Fun.(*ast.SelectorExpr)
+						if !ok || !modelled[sel.Sel.Name] {
+							return true
+						}
+						fn, _ := pk.TypesInfo.Uses[sel.Sel].(*types.Func)
+						if fn == nil || fn.Pkg() == nil || fn.Pkg().Path() != "slices" {
+							return true
+						}
+						txt := normText(text(srcOf[f], fset, c))
+						if want[txt] <= 0 {
+							return true
+						}
+						inst, okI := pk.TypesInfo.Instances[sel.Sel]
+						if !okI || inst.TypeArgs == nil || inst.TypeArgs.Len() != 2 {
+							return true
+						}
+						want[txt]--
+						uidCounter++
+						S := types.TypeString(inst.TypeArgs.At(0), qual)
+						E := types.TypeString(inst.TypeArgs.At(1), qual)
+						hn := fmt.Sprintf("zzcanon%s%d", sel.Sel.Name, uidCounter)
+						switch sel.Sel.Name {
+						case "ContainsFunc":
+							fmt.Fprintf(&tail, "\nfunc %s(s %s, f func(%s) bool) bool {\n\tfor i := range s {\n\t\tif f(s[i]) {\n\t\t\treturn true\n\t\t}\n\t}\n\treturn false\n}\n", hn, S, E)
+						case "IndexFunc":
+							fmt.Fprintf(&tail, "\nfunc %s(s %s, f func(%s) bool) int {\n\tfor i := range s {\n\t\tif f(s[i]) {\n\t\t\treturn i\n\t\t}\n\t}\n\treturn -1\n}\n", hn, S, E)
+						case "Contains":
+							fmt.Fprintf(&tail, "\nfunc %s(s %s, v %s) bool {\n\tfor i := range s {\n\t\tif v == s[i] {\n\t\t\treturn true\n\t\t}\n\t}\n\treturn false\n}\n", hn, S, E)
+						case "Index":
+							fmt.Fprintf(&tail, "\nfunc %s(s %s, v %s) int {\n\tfor i := range s {\n\t\tif v == s[i] {\n\t\t\treturn i\n\t\t}\n\t}\n\treturn -1\n}\n", hn, S, E)
+						}
+						modelEdits[f] = append(modelEdits[f], edit{fset.Position(c.Fun.Pos()).Offset, fset.Position(c.Fun.End()).Offset, hn})
+						return true
+					})
+				}
+				if tail.Len() > 0 {
+					// keep the import in use
+					for _, is := range f.Imports {
+						if is.Path.Value == `"slices"` {
+							n := "slices"
+							if is.Name != nil {
+								n = is.Name.Name
+							}
+							fmt.Fprintf(&tail, "\nvar _ = %s.Contains[[]int, int]\n", n)
+						}
+					}
+					end := len(srcOf[f])
+					modelEdits[f] = append(modelEdits[f], edit{end, end, "\n" + tail.String()})
+				}
+			}
+		}
+		if len(modelEdits) > 0 {
+			for f, es := range modelEdits {
+				res, err := applyEdits(srcOf[f], es)
+				if err != nil {
+					return nil, nil, kept, err
+				}
+				out[fileOf[f]] = res
+			}
+			// the injected helpers are inlined in the next round
+			return out, []string{"(library calls modelled as loops)#partial"}, kept, nil
 		}
 	}
 	// new helpers, program-wide
@@ -927,6 +1108,25 @@ func planCall(fset *token.FileSet, srcOf map[*ast.File][]byte, h *helper, cs *ca
 		}
 	}
 
+	// parameters bound to a function literal that is a single expression and is only ever called (with
+	// side-effect-free arguments) in the body: the literal's expression replaces those calls (beta reduction), so
+	// that a predicate handed to a loop helper ends up in the loop condition itself
+	litParams := map[*types.Var]*ast.FuncLit{}
+	var litEdits []edit
+	if !cross && len(cs.call.Args) == sig.Params().Len() {
+		for i, a := range cs.call.Args {
+			lit, ok := ast.Unparen(a).(*ast.FuncLit)
+			if !ok {
+				continue
+			}
+			pv := sig.Params().At(i)
+			es, ok := betaEdits(fset, csrc, hsrc, info, hinfo, hd, pv, lit, qual)
+			if ok {
+				litParams[pv] = lit
+				litEdits = append(litEdits, es...)
+			}
+		}
+	}
 	// ---- build the inlined text
 	L := fmt.Sprintf("inl%d", uid)
 	var pre strings.Builder
@@ -942,6 +1142,9 @@ func planCall(fset *token.FileSet, srcOf map[*ast.File][]byte, h *helper, cs *ca
 	var names, vals []string
 	var discards []string
 	addParam := func(v *types.Var, arg string, isNil bool) {
+		if litParams[v] != nil {
+			return
+		}
 		ts := "(" + types.TypeString(v.Type(), qual) + ")"
 		if v.Name() == "" || v.Name() == "_" {
 			if !isNil {
@@ -1040,6 +1243,7 @@ func planCall(fset *token.FileSet, srcOf map[*ast.File][]byte, h *helper, cs *ca
 	}
 	walk(hd.Body)
 	bes = append(bes, qualEdits...)
+	bes = append(bes, litEdits...)
 	for i := range bes {
 		bes[i].start -= bodyStart
 		bes[i].end -= bodyStart
@@ -1465,4 +1669,137 @@ func isGoDeferSite(cs *callSite) bool {
 		}
 	}
 	return false
+}
+
+// betaEdits: edits on the helper body that replace every call of parameter pv by the expression of the literal it
+// is bound to. ok=false when the literal is not a single expression, the parameter escapes, an argument has side
+// effects, or a free name of the literal would be shadowed inside the helper.
+func betaEdits(fset *token.FileSet, csrc, hsrc []byte, info, hinfo *types.Info, hd *ast.FuncDecl, pv *types.Var, lit *ast.FuncLit, qual types.Qualifier) ([]edit, bool) {
+	if len(lit.Body.List) != 1 {
+		return nil, false
+	}
+	ret, ok := lit.Body.List[0].(*ast.ReturnStmt)
+	if !ok || len(ret.Results) != 1 {
+		return nil, false
+	}
+	result := ret.Results[0]
+	nested := false
+	ast.Inspect(result, func(n ast.Node) bool {
+		if _, isLit := n.(*ast.FuncLit); isLit {
+			nested = true
+		}
+		return true
+	})
+	if nested {
+		return nil, false
+	}
+	// literal parameters
+	var lparams []*types.Var
+	if lit.Type.Params != nil {
+		for _, f := range lit.Type.Params.List {
+			if len(f.Names) == 0 {
+				return nil, false
+			}
+			for _, n := range f.Names {
+				v, _ := info.Defs[n].(*types.Var)
+				if v == nil {
+					return nil, false
+				}
+				lparams = append(lparams, v)
+			}
+		}
+	}
+	// uses of pv in the helper body: all direct calls with pure arguments
+	var calls []*ast.CallExpr
+	okUses := true
+	callFun := map[*ast.Ident]bool{}
+	ast.Inspect(hd.Body, func(n ast.Node) bool {
+		if c, isC := n.(*ast.CallExpr); isC {
+			if id, isID := ast.Unparen(c.Fun).(*ast.Ident); isID && hinfo.Uses[id] == types.Object(pv) {
+				callFun[id] = true
+				if len(c.Args) != len(lparams) {
+					okUses = false
+				}
+				for _, a := range c.Args {
+					if !pureExpr(a) {
+						okUses = false
+					}
+				}
+				calls = append(calls, c)
+			}
+		}
+		return true
+	})
+	ast.Inspect(hd.Body, func(n ast.Node) bool {
+		if id, isID := n.(*ast.Ident); isID && hinfo.Uses[id] == types.Object(pv) && !callFun[id] {
+			okUses = false
+		}
+		return true
+	})
+	if !okUses || len(calls) == 0 {
+		return nil, false
+	}
+	// free names of the literal must not be shadowed by the helper's own declarations at the call
+	for _, c := range calls {
+		bad := false
+		ast.Inspect(result, func(n ast.Node) bool {
+			id, isID := n.(*ast.Ident)
+			if !isID {
+				return true
+			}
+			o := info.Uses[id]
+			if o == nil || (o.Pos() >= lit.Pos() && o.Pos() <= lit.End()) {
+				return true
+			}
+			if v, isVar := o.(*types.Var); isVar && v.IsField() {
+				return true
+			}
+			// is the name declared inside the helper and visible at the call?
+			var sc *types.Scope
+			for node, s := range hinfo.Scopes {
+				if node.Pos() <= c.Pos() && c.End() <= node.End() && node.Pos() >= hd.Pos() && node.End() <= hd.End() {
+					if sc == nil || s.Pos() >= sc.Pos() {
+						sc = s
+					}
+				}
+			}
+			for s := sc; s != nil; s = s.Parent() {
+				if alt := s.Lookup(id.Name); alt != nil && alt.Pos() >= hd.Pos() && alt.Pos() <= hd.End() && alt.Pos() < c.Pos() {
+					bad = true
+				}
+				if s.Pos() < hd.Pos() {
+					break
+				}
+			}
+			return true
+		})
+		if bad {
+			return nil, false
+		}
+	}
+	rs, re := fset.Position(result.Pos()).Offset, fset.Position(result.End()).Offset
+	var out []edit
+	for _, c := range calls {
+		subst := map[types.Object]string{}
+		for j, lp := range lparams {
+			subst[lp] = "(" + types.TypeString(lp.Type(), qual) + ")(" + text(hsrc, fset, c.Args[j]) + ")"
+		}
+		var es []edit
+		ast.Inspect(result, func(n ast.Node) bool {
+			id, isID := n.(*ast.Ident)
+			if !isID {
+				return true
+			}
+			if rep, isP := subst[info.Uses[id]]; isP {
+				es = append(es, edit{fset.Position(id.Pos()).Offset - rs, fset.Position(id.End()).Offset - rs, rep})
+			}
+			return true
+		})
+		body, err := applyEdits(csrc[rs:re], es)
+		if err != nil {
+			return nil, false
+		}
+		out = append(out, edit{fset.Position(c.Pos()).Offset, fset.Position(c.End()).Offset, "(" + string(body) + ")"})
+	}
+	return out, true
 }
